@@ -1,5 +1,6 @@
 import NbioVerif.Model.Pipeline
 import NbioVerif.Model.ClientFifo
+import NbioVerif.Model.ClientPool
 import NbioVerif.DrvCommon
 /-! pipedrv: predicts, from the request history of each connection, what the clients of harness `he2e`
 observe (C10).  Server side = `Pipeline` (run under the schedule given on the K line, then drained);
@@ -25,6 +26,7 @@ structure H where
   failAt : Nat
   dialFail : Nat
   abortAt : Nat
+  cut : Option Nat
   qs : Array Q
 
 def hex16 (x : UInt64) : String :=
@@ -81,13 +83,13 @@ def mkCfg (sync : Bool) (qs : List Q) : Cfg Nat :=
     sync }
 
 /-- the server side of one connection: `Pipeline.run` on the schedule of the K line followed by
-    `completion`; the state is used only if the two checks of `Pipeline.c10_run_checked` hold for this
+    `completion`; the state is used only if the three checks of `Pipeline.c10_run_checked` hold for this
     very run (otherwise the driver answers `model-unchecked`, which never matches the implementation) -/
 def serve? (sync : Bool) (sched : List Act) (qs : List Q) : Option (St Nat) :=
   let cfg := mkCfg sync qs
   let acts := sched ++ completion (4 * qs.length + 8)
   let s := run cfg init acts
-  if noExt acts && doneB cfg s then some s else none
+  if noExt acts && doneB cfg s && !s.dropped then some s else none
 
 /-- a state nothing matches: used when the checks fail -/
 def unchecked : St Nat := { (init : St Nat) with wire := [1000000007] }
@@ -95,7 +97,19 @@ def unchecked : St Nat := { (init : St Nat) with wire := [1000000007] }
 def serve (sync : Bool) (sched : List Act) (qs : List Q) : St Nat :=
   (serve? sync sched qs).getD unchecked
 
+/-- the schedule of the known finding "close drops the backlog": from response `i` on the kernel stops
+    taking bytes (the tail part of response i and everything behind it is queued); the job of the first
+    closing request finishes with the queue non-empty and the close releases it -/
+def serveCut (sync : Bool) (i : Nat) (qs : List Q) : St Nat :=
+  let n := qs.length
+  let job (k : Nat) : List Act :=
+    if k < i then [.start, .write none, .write none, .finish]
+    else if k == i then [.start, .write none, .write (some 0), .finish]
+    else [.start, .write none, .write none, .finish]
+  run (mkCfg sync qs) init (List.replicate n Act.parse ++ (List.range n).flatMap job)
+
 def answeredIn (s : St Nat) (i : Nat) : Bool := s.wire.contains (2 * i) && s.wire.contains (2 * i + 1)
+def partialIn (s : St Nat) (i : Nat) : Bool := s.wire.contains (2 * i) && !s.wire.contains (2 * i + 1)
 def answeredCount (s : St Nat) : Nat := s.wire.length / 2
 
 /-- split a history into the connections a reconnecting client (net/http, nbhttp.Client pool) uses:
@@ -118,10 +132,19 @@ def outcome0 (sync : Bool) (h : H) : List String :=
     let lines := fun (s : St Nat) => qs.mapIdx fun i q =>
       if answeredIn s i then
         answeredLine h.cid q (if 2 * (i + 1) == s.wire.length && s.closed then "1" else "0") "x"
+      else if partialIn s i && s.dropped then s!"R {q.rid} bad=truncated cb=x"
       else s!"R {q.rid} none cb=x"
     if h.abortAt > 0 then
       lines (serve sync h.sched qs) ++ (h.qs.toList.drop (h.abortAt - 1)).map fun q => s!"R {q.rid} none cb=x"
-    else lines (serve sync h.sched qs)
+    else
+    let s := match h.cut with
+      | some i => serveCut sync i qs
+      | none => serve sync h.sched qs
+    qs.mapIdx fun i q =>
+      if answeredIn s i then
+        answeredLine h.cid q (if 2 * (i + 1) == s.wire.length && s.closed then "1" else "0") "x"
+      else if partialIn s i && s.dropped then s!"R {q.rid} bad=truncated cb=x"
+      else s!"R {q.rid} none cb=x"
   | "nbc" =>
     -- the first `dialFail` Do calls fail to dial (no connection, `closeWithErrorWithoutLock`); the server
     -- sees the history from the first request that got a connection
@@ -176,7 +199,8 @@ def outcome0 (sync : Bool) (h : H) : List String :=
 def allChecked (sync : Bool) (h : H) : Bool :=
   let qs := h.qs.toList
   match h.kind with
-  | "raw" => (serve? sync h.sched (if h.abortAt > 0 then qs.take (h.abortAt - 1) else qs)).isSome
+  | "raw" => h.cut.isSome ||
+      (serve? sync h.sched (if h.abortAt > 0 then qs.take (h.abortAt - 1) else qs)).isSome
   | "nbc" => (serve? sync h.sched (qs.drop (min h.dialFail qs.length))).isSome
   | "nbx" => (serve? sync h.sched (qs.drop (min h.failAt qs.length + 1))).isSome
   | "std" | "nbcli" =>
@@ -209,6 +233,49 @@ def parseQ (ws : List String) : Option Q := do
 structure DS where
   iomod : String := ""
   cur : Option H := none
+  pool : Option (Nat × ClientPool.St) := none   -- a `C pool` case: (max, state)
+
+def showNats (xs : List Nat) : String := String.intercalate "," ("-" :: xs.map toString)
+
+/-- one op of a pool case on the model `ClientPool` -/
+def poolOp (max : Nat) (s : ClientPool.St) (ws : List String) : String × ClientPool.St :=
+  match ws with
+  | ["G"] =>
+    let r := s.nreq
+    match ClientPool.step max s .get with
+    | some s' =>
+      match s'.assigned.getLast? with
+      | some (r', c) =>
+        if r' == r && s'.assigned.length == s.assigned.length + 1 then
+          (s!"got c={c} new={if c == s.count then 1 else 0} reset={if s'.redials.contains r then 1 else 0}", s')
+        else (s!"blocked r={r}", s')
+      | none => (s!"blocked r={r}", s')
+    | none => ("bad-op", s)
+  | ["R", c] =>
+    match c.toNat? with
+    | some c =>
+      match ClientPool.step max s (.release c) with
+      | some s' =>
+        if s'.assigned.length == s.assigned.length + 1 then
+          match s'.assigned.getLast? with
+          | some (r, c') => (s!"ok handoff={r}:{c'}:{if s'.redials.contains r then 1 else 0}", s')
+          | none => ("bad-op", s)
+        else ("ok handoff=-", s')
+      | none => ("bad-release", s)
+    | none => ("bad-op", s)
+  | ["X", c] =>
+    match c.toNat? with
+    | some c =>
+      if c < s.count then ("ok", (ClientPool.step max s (.connClosed c)).getD s) else ("bad-conn", s)
+    | none => ("bad-op", s)
+  | ["T"] =>
+    match s.waiting with
+    | r :: _ => (s!"timeout r={r}", (ClientPool.step max s (.timeout r)).getD s)
+    | [] => ("none", s)
+  | ["S"] =>
+    let busy := s.busy.toArray.qsort (· < ·) |>.toList
+    (s!"state count={s.count} idle={s.idle.length} busy={showNats busy} waiting={String.intercalate "," (s.waiting.map toString ++ ["-"])}", s)
+  | _ => ("bad-op", s)
 
 def flush (s : DS) : IO DS := do
   match s.cur with
@@ -224,9 +291,31 @@ partial def loop (h : IO.FS.Stream) (s : DS) : IO Unit := do
     let _ ← flush s
     return ()
   let ws := (line.trimAscii.toString.splitOn " ").filter (· ≠ "")
+  if s.pool.isSome && (match ws with | op :: _ => ["G", "R", "X", "T", "S"].contains op | [] => false) then
+    match s.pool with
+    | some (max, ps) =>
+      let (out, ps') := poolOp max ps ws
+      IO.println out
+      loop h { s with pool := some (max, ps') }
+    | none => loop h s
+  else
   match ws with
+  | "C" :: "pool" :: _ =>
+    let s ← flush s
+    match (Drv.field ws "max").bind String.toNat?, (Drv.field ws "timeout").bind String.toNat? with
+    | some max, some t =>
+      if max > 0 && t > 0 then
+        IO.println "ok"
+        loop h { s with pool := some (max, {}), iomod := "" }
+      else
+        IO.println "bad-op"
+        loop h { s with pool := none }
+    | _, _ =>
+      IO.println "bad-op"
+      loop h { s with pool := none }
   | "C" :: iomod :: tls :: ep :: _ =>
     let s ← flush s
+    let s := { s with pool := none }
     if (iomod == "nb" || iomod == "bl" || iomod == "mx") && (tls == "0" || tls == "1") &&
         ["lt", "et", "os", "eta", "osa"].contains ep then
       IO.println "ok"
@@ -242,10 +331,11 @@ partial def loop (h : IO.FS.Stream) (s : DS) : IO Unit := do
         let got := ((Drv.field ws "got").bind String.toNat?).getD 0
         let lost := (((Drv.field ws "lost").getD "").splitOn ",").filterMap String.toNat?
         let failAt := ((Drv.field ws "fail").bind String.toNat?).getD 0
+        let cut := (Drv.field ws "cut").bind String.toNat?
         let dialFail := ((Drv.field ws "dialfail").bind String.toNat?).getD 0
         let abortAt := ((Drv.field ws "abort").bind String.toNat?).getD 0
         IO.println "ok"
-        loop h { s with cur := some { cid, kind, sched, got, lost, failAt, dialFail, abortAt, qs := #[] } }
+        loop h { s with cur := some { cid, kind, sched, got, lost, failAt, dialFail, abortAt, cut, qs := #[] } }
       else
         IO.println "bad-op"
         loop h s
